@@ -282,9 +282,32 @@ def run_corpus(ctx):
                 ctx.violation(os.path.join("corpus", "C12", fn), f"regression input fails: {type(e).__name__}: {e}")
 
 
+def guard_expression_passes(ctx, n):
+    """guards given as boolean expressions whose names are provided by listeners attached *late*: every attachment
+    pass that provides all names of an entry contributes that entry once more, over its own providers (model:
+    `GExpr.constructPasses`; Spec: CPython's `eval` pass by pass; same three-way comparison as C08)"""
+    import random
+    import expr_gen as G
+    from props import c08 as C8
+    scns, i = [], 0
+    while len(scns) < n and i < 20 * n:
+        s = G.gen_scenario(random.Random(f"{ctx.seed}:C12late:{i}"), f"C12late{i}")
+        i += 1
+        if s.get("late"):
+            scns.append(s)
+    stats, problems = C8.process(scns)
+    ctx.coverage["late_guard_expression_scenarios"] = len(scns)
+    ctx.coverage["late_guard_expression_events"] = stats["events"]
+    C8.report(ctx, problems)
+
+
 def run(ctx):
     lean_obligations(ctx)
     run_corpus(ctx)
+    import subprocess
+    from common import LEAN
+    subprocess.run(["lake", "build", "drv_expr"], cwd=LEAN, capture_output=True, text=True)
+    guard_expression_passes(ctx, 250 if ctx.tier == "quick" else 4000)
     ctx.coverage["rule"] = ("seeded random machines whose callbacks (conventions, names, guards, validators) are "
                             "distributed over machine, model, constructor listeners and late listeners; the same name "
                             "offered by 1-3 providers; listeners attached at random points of the history and attached "
